@@ -89,6 +89,7 @@ type Contract struct {
 	LoopTextOrder []string
 	Writes        []string // slice parameters whose elements the function writes
 	SafetyProps   []string
+	AssertBefore  []*AssertAnchor
 	Uses          []string // quantified callee clauses to assume at call sites: "callee.clause" or "callee.*"
 }
 
@@ -107,6 +108,13 @@ type PredDecl struct {
 type GhostAnchor struct {
 	Anchor string
 	Eff    *Effect
+}
+
+// AssertAnchor: an assertion checked immediately before every statement whose
+// source text starts with Anchor.
+type AssertAnchor struct {
+	Anchor string
+	Cl     *Clause
 }
 
 type GuardDecl struct {
@@ -568,6 +576,23 @@ func (cf *ContractFile) parseOne(path string) error {
 					cl.Name = fmt.Sprintf("loopinv.%d", len(c.LoopInvs)+1)
 				}
 				c.LoopInvs = append(c.LoopInvs, cl)
+			case "assertbefore":
+				// assertbefore "<statement text prefix>" [PROPS] name: EXPR
+				if !strings.HasPrefix(rest, "\"") {
+					return fail(fmt.Errorf("assertbefore needs a quoted anchor"))
+				}
+				j := strings.Index(rest[1:], "\"")
+				if j < 0 {
+					return fail(fmt.Errorf("assertbefore: unterminated anchor"))
+				}
+				cl, err := parseClause(strings.TrimSpace(rest[2+j:]), it.line)
+				if err != nil {
+					return fail(err)
+				}
+				if cl.Name == "" {
+					cl.Name = fmt.Sprintf("assert.%d", len(c.AssertBefore)+1)
+				}
+				c.AssertBefore = append(c.AssertBefore, &AssertAnchor{Anchor: rest[1 : 1+j], Cl: cl})
 			case "ghostafter":
 				// ghostafter "<statement text prefix>" : [if COND :] LHS = RHS
 				if !strings.HasPrefix(rest, "\"") {
